@@ -244,8 +244,15 @@ func registerIntrinsics(e *Engine) {
 	})
 	// sync.Pool: Get returns New() (fresh object); Put is recorded.
 	r("(*sync.Pool).Get", func(p *Path, caller *frame, fn *ssa.Function, args []Value, _ ssa.CallInstruction) Value {
-		p.stubs["sync.Pool.Get returns New() (pooled objects are inspected at Put time)"] = true
+		p.stubs["sync.Pool.Get returns either New() or, nondeterministically, the most recently Put object"] = true
 		pool := args[0].(*Ptr)
+		if q := p.pools[pool.Obj]; len(q) > 0 {
+			if p.choice(2) == 0 {
+				v := q[len(q)-1]
+				p.pools[pool.Obj] = q[:len(q)-1]
+				return v
+			}
+		}
 		sv := p.load(pool).(*StructV)
 		// field "New" is the last field
 		st := deref(fn.Signature.Recv().Type()).Underlying().(*types.Struct)
@@ -263,6 +270,56 @@ func registerIntrinsics(e *Engine) {
 	r("(*sync.Pool).Put", func(p *Path, caller *frame, fn *ssa.Function, args []Value, _ ssa.CallInstruction) Value {
 		pool := args[0].(*Ptr)
 		p.pools[pool.Obj] = append(p.pools[pool.Obj], args[1])
+		return nil
+	})
+
+	// ----- crypto/subtle.XORBytes -----
+	r("crypto/subtle.XORBytes", func(p *Path, _ *frame, _ *ssa.Function, args []Value, _ ssa.CallInstruction) Value {
+		F := p.F
+		dst, x, y := args[0].(*SliceV), args[1].(*SliceV), args[2].(*SliceV)
+		nT := F.Ite(F.BvUlt(x.Len, y.Len), x.Len, y.Len)
+		n := int(p.concretize(nT, "XORBytes length"))
+		if n == 0 {
+			return F.BVConst64(0, 64)
+		}
+		if !p.forkLikely(F.BvUge(dst.Len, F.BVConst64(uint64(n), 64))) {
+			p.gopanic("subtle.XORBytes: dst too short")
+		}
+		for _, s := range []*SliceV{dst, x, y} {
+			if !s.Off.IsConst() {
+				p.concretize(s.Off, "XORBytes offset")
+			}
+		}
+		xe, ye := p.sliceElems(x, n), p.sliceElems(y, n)
+		for i := 0; i < n; i++ {
+			p.store(p.sliceElemPtr(dst, F.BVConst64(uint64(i), 64)), F.BvXor(xe[i].(*term.T), ye[i].(*term.T)))
+		}
+		return F.BVConst64(uint64(n), 64)
+	})
+
+	// ----- Keccak-f[1600]: uninterpreted permutation (the amd64 build has only assembly) -----
+	r("github.com/ethereum/go-ethereum/crypto/keccak.keccakF1600", func(p *Path, _ *frame, _ *ssa.Function, args []Value, _ ssa.CallInstruction) Value {
+		F := p.F
+		ptr := args[0].(*Ptr)
+		p.stubs["keccakF1600 is an uninterpreted function BV1600 -> BV1600"] = true
+		arr, ok := p.loadAt(ptr.Obj.Val, ptr.Path).(*ArrayV)
+		if !ok || (len(arr.E) != 200 && len(arr.E) != 25) {
+			p.unsupported("keccakF1600 on unexpected state representation")
+		}
+		var in *term.T
+		for i := len(arr.E) - 1; i >= 0; i-- {
+			e := arr.E[i].(*term.T)
+			if in == nil {
+				in = e
+			} else {
+				in = F.Concat(in, e)
+			}
+		}
+		out := F.UF("KF1600", term.BV(1600), in)
+		w := 1600 / len(arr.E)
+		for i := range arr.E {
+			p.store(&Ptr{Obj: ptr.Obj, Path: extPath(ptr.Path, Sel{Idx: F.BVConst64(uint64(i), 64)})}, F.Extract(out, w*i+w-1, w*i))
+		}
 		return nil
 	})
 
